@@ -135,5 +135,15 @@ pub mod stdrepeat {
     //@extract crates/jrsonnet-stdlib/src/arrays.rs :: fn builtin_repeat
 }
 
+/// selection and rounding functions of jrsonnet-stdlib/src/math.rs (the `#[builtin]` attribute is dropped:
+/// the functions are called with already converted, finite doubles)
+pub mod stdmath {
+    //@extract crates/jrsonnet-stdlib/src/math.rs :: fn builtin_abs
+    //@extract crates/jrsonnet-stdlib/src/math.rs :: fn builtin_sign
+    //@extract crates/jrsonnet-stdlib/src/math.rs :: fn builtin_max
+    //@extract crates/jrsonnet-stdlib/src/math.rs :: fn builtin_min
+    //@extract crates/jrsonnet-stdlib/src/math.rs :: fn builtin_clamp
+}
+
 #[cfg(kani)]
 mod harnesses;
